@@ -54,6 +54,26 @@ def _big_script_cmds():
 
 
 # ------------------------------------------------------------------ clause: single push lengths
+def _near_standard_cmds():
+    """Scripts with the length and the first / last opcodes of a standard output template (P2PKH 25, P2SH 23, P2WPKH 22, P2WSH 34
+    bytes) whose middle is NOT the single hash push: the push is split, shortened next to an opcode, or replaced by opcodes."""
+    def build(tmpl, a, fa, fb, how):
+        head, n, tail = {"p2pkh": ([0x76, 0xA9], 20, [0x88, 0xAC]), "p2sh": ([0xA9], 20, [0x87]),
+                         "p2wpkh": ([0], 20, []), "p2wsh": ([0], 32, [])}[tmpl]
+        a = 1 + a % (n - 2)
+        if how == 0:       # two pushes with the same total encoded length as the one push: (1+a) + (1+n-1-a) = n+1
+            mid = [["data", a, fa, fb], ["data", n - 1 - a, fb, fa]]
+        elif how == 1:     # a push one byte shorter followed by an opcode
+            mid = [["data", n - 1, fa, fb], ["op", 0xAC]]
+        elif how == 2:     # an opcode followed by a push one byte shorter
+            mid = [["op", 0x76], ["data", n - 1, fa, fb]]
+        else:              # the genuine template
+            mid = [["data", n, fa, fb]]
+        return [["op", o] for o in head] + mid + [["op", o] for o in tail]
+    return st.builds(build, st.sampled_from(["p2pkh", "p2sh", "p2wpkh", "p2wsh"]), st.integers(0, 40), st.integers(0, 255),
+                     st.integers(0, 255), st.integers(0, 3))
+
+
 def enum_push(tier):
     fills = [(0, 0), (0x4C, 0), (0xFF, 0), (1, 1), (0x4D, 3)]
     for L in list(range(0, 523)) + [600, 65535, 65536, 70000]:
@@ -346,10 +366,11 @@ def clauses():
                shards={"quick": 4, "thorough": 8}),
         Clause("scripts", check_roundtrip,
                "random scripts of up to 12 opcodes/elements, sizes biased to thresholds, plus scripts "
-               "whose total passes 0xffff; byte-for-byte against the reference serialiser, then "
+               "whose total passes 0xffff, plus look-alikes of the four standard output templates (same length, same "
+               "first / last opcodes, other middle); byte-for-byte against the reference serialiser, then "
                "parse(serialize(s)) == s; non-trivial = contains a threshold-length element",
                gen=lambda tier: st.fixed_dictionaries({"cmds": st.one_of(
-                   _script_cmds(), _script_cmds(), _script_cmds(), _big_script_cmds())}),
+                   _script_cmds(), _script_cmds(), _script_cmds(), _big_script_cmds(), _near_standard_cmds())}),
                nontrivial=nt_roundtrip, classes=classes_roundtrip,
                n={"quick": 3000, "thorough": 150000}, shards={"quick": 4, "thorough": 16}),
         Clause("prefixes", check_prefixes,
